@@ -74,6 +74,9 @@ func runC06(ctx *Ctx) {
 	// message received in between (integrity protected and ciphered; security mode command with a new-context header):
 	// none of them may touch the uplink COUNT
 	ops = append(ops, c06op{-2, 2, false}, c06op{-3, 2, false}, c06op{-4, 3, false})
+	// a message sent unprotected through the same entry point (no security context to be used for it), with either value
+	// of the new-context flag: the plain octets go out and the counters of the context in use stay as they are
+	ops = append(ops, c06op{-5, 0, false}, c06op{-5, 0, true})
 	// the special operations are combined with three representative sends in their own product of histories
 	specialFrom, specialTo := shortOps, len(ops)
 	mini := []int{2, 4, 16} // send(msg0,h=3) ; send(msg1,h=1) ; send(msg0,h=4,new context)
@@ -217,6 +220,24 @@ func c06history(r *report.Report, l *report.Local, msgs [][]byte, ops []c06op, a
 		// model state: (algorithm pair, COUNT the receiver expects next); transition: one send operation from it
 		l.State(c06key(alg, expect, -1))
 		l.Transition(c06key(alg, expect, oi))
+		if op.msg == -5 {
+			var out []byte
+			var err error
+			dlBefore := ue.DLCount.Get()
+			perr := recoverErr(func() { out, err = tglib.EncodeNasPduWithSecurity(ue, append([]byte{}, msgs[0]...), 0, false, op.newCtx) })
+			if short {
+				desc += fmt.Sprintf(" plain-send(new=%v)", op.newCtx)
+			}
+			if perr != nil || err != nil || !bytes.Equal(out, msgs[0]) {
+				r.Violate("protect/plain-send", desc, fmt.Sprintf("step %d: %x (%v %v), submitted %x", step, out, perr, err, msgs[0]), seq)
+				break
+			}
+			if ue.ULCount.Get() != expect || ue.DLCount.Get() != dlBefore {
+				r.Violate("protect/COUNT-changed-by-an-unprotected-send", desc, fmt.Sprintf("step %d: UL COUNT %#x (was %#x), DL COUNT %#x (was %#x)", step, ue.ULCount.Get(), expect, ue.DLCount.Get(), dlBefore), seq)
+				break
+			}
+			continue
+		}
 		if op.msg == -2 || op.msg == -3 || op.msg == -4 {
 			what := map[int]string{-2: "ciphering-failure", -3: "downlink-message-received", -4: "downlink-security-mode-command-received"}[op.msg]
 			var ferr error
